@@ -150,6 +150,17 @@ def check_c16(prop, tier):
         A.mods()
         emitted = run_mc("edit", sz, work, res)
         res.exhaustive = True
+        # design level only (no emission): histories of two (thorough: three) edits, every second edit from every recording the
+        # first one can produce
+        fn = os.path.join(work, "MC_Audio_deep.cfg")
+        deep = dict(Mode="edit", MaxLen=3 if tier == "quick" else 4, Depth=2 if tier == "quick" else 3, MaxIv=sz["MaxIv"], Emit=False, Slice=0, NSlices=1)
+        common.write_cfg(fn, deep, invariants=["NoFail"], constraints=["Bound"])
+        r = common.run_tlc("MC_Audio", fn, work, workers=common.NCPU, timeout=7200)
+        res.add_tlc(r)
+        if common.tlc_failed(r):
+            sys.stderr.write(r["out"][-3000:])
+            raise common.MachineryError("MC_Audio deep design-level run failed")
+        deep_note = dict(constants=deep, states=r["distinct"], transitions=r["generated"])
         plans = PLANS[:4] if tier == "quick" else PLANS
         items = [({"op": e["op"], "args": e["args"], "pre": e["pre"]}, r, w) for (r, w) in plans for e in emitted]
         items += rand_edit_vectors(sz["rand"], common.SEED)
@@ -163,7 +174,7 @@ def check_c16(prop, tier):
         if events:
             res.add_sample({k: events[0][k] for k in ("op", "args", "pre", "ret", "post", "rate", "width", "dur")})
             res.add_sample({k: events[-1][k] for k in ("op", "args", "pre", "ret", "post", "rate", "width", "dur")})
-        res.notes = dict(enumerated_transitions=len(emitted), plans=plans)
+        res.notes = dict(enumerated_transitions=len(emitted), plans=plans, deep_design_run=deep_note)
         res.assumptions = ["sample ids are concretized by an injective map into the PCM value range of each width (including both extremes)",
                            "at an exact half sample either neighbour is accepted as 'nearest'"]
         return finish(res, prop, tier, events, work, ["C16_"],
@@ -279,7 +290,7 @@ def check_c17(prop, tier):
         if events:
             res.add_sample({k: events[0][k] for k in ("op", "args", "pre", "ret", "st", "rate", "width")})
             res.add_sample({k: events[-1][k] for k in ("op", "args", "pre", "ret", "st", "rate", "width")})
-        res.notes = dict(enumerated_transitions=len(emitted), plans=plans)
+        res.notes = dict(enumerated_transitions=len(emitted), plans=plans, deep_design_run=deep_note)
         res.assumptions = ["generated samples project to id 0 / -1; kept samples are identified by their distinct ids",
                            "the cropped TextGrids written by splitAudioOnTier are read back with praatio's own reader (C03 covers the reader)"]
         return finish(res, prop, tier, events, work, ["C17_"],
